@@ -251,10 +251,69 @@ fn check_build(input: &(u8, u16, u8), case: &mut Case) -> Result<(), Fail> {
     Ok(())
 }
 
+/// a parsed header whose opcode / response code / flags are then changed must serialise the new
+/// values at their bit positions (nothing of the received word may leak back)
+fn enum_modify(_t: Tier, shard: usize, n: usize, f: &mut dyn FnMut((u16, u8, u16, u8)) -> bool) {
+    let mut i = 0usize;
+    for word in 0..=65535u16 {
+        if word & Z != 0 {
+            continue;
+        }
+        i += 1;
+        if !mine(i, shard, n) {
+            continue;
+        }
+        // every (opcode, rcode) pair, with a flag set derived from the word so that all 128 occur
+        for (k, op) in NAMED_OPCODES.iter().enumerate() {
+            for (j, rc) in NAMED_RCODES.iter().enumerate() {
+                let fl = ((word as usize).wrapping_mul(31) + k * 12 + j) as u8 & 0x7f;
+                if !f((word, *op, *rc, fl)) {
+                    return;
+                }
+            }
+        }
+    }
+}
+
+fn check_modify(input: &(u16, u8, u16, u8), case: &mut Case) -> Result<(), Fail> {
+    let (word, op, rc, fl) = *input;
+    case.nontrivial = word & !(FLAG_BITS) != 0;
+    let mut buf = vec![0x12, 0x34];
+    buf.extend_from_slice(&word.to_be_bytes());
+    buf.extend_from_slice(&[0; 8]);
+    let mut p = parse(&buf)?.map_err(|e| Fail::new("c08:valid-header-rejected", format!("word {:#06x}: {:?}", word, e)))?;
+    let target = subset(fl);
+    lib("opcode_mut", || *p.opcode_mut() = opcode_of(op).unwrap())?;
+    lib("rcode_mut", || *p.rcode_mut() = rcode_of(rc & 15).unwrap_or(simple_dns::RCODE::NoError))?;
+    // bring the flag set to `target` with set/remove only
+    let have = word & FLAG_BITS;
+    lib("set_flags", || p.set_flags(flags_of(target & !have)))?;
+    lib("remove_flags", || p.remove_flags(flags_of(have & !target)))?;
+    let rc4 = if NAMED_RCODES.contains(&(rc & 15)) { rc & 15 } else { 0 };
+    let out = lib("build_bytes_vec", || p.build_bytes_vec())?.map_err(|e| Fail::new("c08:rebuild-failed", format!("{:?}", e)))?;
+    let w2 = u16::from_be_bytes([out[2], out[3]]);
+    let want = target | ((op as u16) << 11) | rc4;
+    ensure!(
+        w2 == want,
+        "c08:modify-after-parse",
+        "received word {:#06x}, then opcode := {}, rcode := {}, flags := {:#06x}: serialised word {:#06x}, expected {:#06x}",
+        word,
+        op,
+        rc4,
+        target,
+        w2,
+        want
+    );
+    for (b, flg) in FLAG_TABLE {
+        ensure!(p.has_flags(flg) == (target & b != 0), "c08:modify-flags", "flag {:#06x} wrong after set/remove on a parsed header {:#06x}", b, word);
+    }
+    Ok(())
+}
+
 pub fn def() -> CheckDef {
     CheckDef {
         id: "C08",
-        rule: "exhaustive enumeration: all 65536 flag words x 5 ids through peek/parse/re-serialise; all 128x128 flag-set pairs x 2 constructors x 128 probes; 5 named opcodes x 12 named rcodes x 128 flag subsets on the build side. Every case is distinct by construction; non-trivial = word != 0 / both sets non-empty / every build case",
+        rule: "exhaustive enumeration: all 65536 flag words x 5 ids through peek/parse/re-serialise; all 128x128 flag-set pairs x 2 constructors x 128 probes; 5 named opcodes x 12 named rcodes x 128 flag subsets on the build side; all 32768 Z-clear received words x 60 (opcode, rcode) pairs assigned after parsing (with flag sets brought to a target by set/remove) and re-serialised. Every case is distinct by construction; non-trivial = word != 0 / both sets non-empty / every build case",
         assumptions: vec!["bit layout transcribed from RFC 1035 section 4.1.1 (+ AD/CD from RFC 2535) in checks/c08.rs"],
         sections: vec![
             Box::new(EnumSection {
@@ -269,6 +328,13 @@ pub fn def() -> CheckDef {
                 rule: "all 128x128 (a,b) flag-set pairs",
                 enumerate: enum_algebra,
                 check: check_algebra,
+                exhaustive: true,
+            }),
+            Box::new(EnumSection {
+                name: "modify-after-parse",
+                rule: "all Z-clear words parsed, then every named (opcode, rcode) pair and a flag set assigned",
+                enumerate: enum_modify,
+                check: check_modify,
                 exhaustive: true,
             }),
             Box::new(EnumSection {
